@@ -107,6 +107,7 @@ func consumeUnixFSData(remaining []byte, ma ipld.MapAssembler) error {
 						panic(err)
 					}
 				}))
+				packedBlockSizes = true
 			default:
 				return ErrWrongWireType{"UnixFSData", Field__BlockSizes, protowire.VarintType, wireType}
 			}
